@@ -258,7 +258,7 @@ macro_rules! c16_decode_total {
         #[kani::proof]
         #[kani::unwind($u)]
         #[kani::stub(alloc::fmt::format, crate::verif_support::fmt_format)]
-        #[kani::stub(core::str::from_utf8, crate::verif_support::utf8_model)]
+        #[kani::stub(std::string::String::from_utf8, crate::verif_support::string_from_utf8_model)]
         fn $name() {
             const N: usize = $n;
             let txt: [u8; N] = kani::any();
